@@ -33,7 +33,13 @@ RULE = ("each run draws a chain of 0-3 pre-elements (callable, Variable, Filter,
         "regimes; one run in five checks an adapter (Call, Run, FillInto, FillCompute, SourceEl) "
         "with a drawn method name or an ill-typed argument instead; non-trivial = at least one "
         "pre-element and a non-empty flow, or an adapter case; distinct = distinct abstracted "
-        "event-kind sequences")
+        "event-kind sequences"
+        " Since the seeded rounds also: callables that return None or a generator, stateful"
+        " callables under deep copies of the sequence, pre-elements raising Lena exceptions,"
+        " Variables with data attributes named like methods, selectors of Filter given as function"
+        " / Selector / Selector(raise_on_error=False) around a raising predicate / list / tuple /"
+        " class, post-elements Slice(1), Reverse and a second accumulator; adapter cases with"
+        " decoy standard methods, composite uses and elements that are empty containers.")
 REAL = ["lena.core.Sequence", "lena.core.FillComputeSeq", "lena.core.FillSeq", "lena.core.Split",
         "lena.core adapters (Call, Run, FillInto, FillCompute, SourceEl)", "lena.flow.Filter",
         "lena.flow.Slice", "lena.flow.RunIf", "lena.flow.Count", "lena.flow.StoreFilled",
